@@ -9,6 +9,8 @@ from ..idioms import for_loops, target_names
 
 ID = "C04"
 ODE = "chempy/kinetics/ode.py"
+CHEM = "chempy/chemistry.py"
+RSYS = "chempy/reactionsystem.py"
 ENGINES = ["E0 core", "E5 siblings"]
 TECHNIQUE = "def-use and order-preservation analysis of the rate-expression list, name/symbol lists and parameter/unit lists; sibling-closure fact comparison (ast)"
 CLAIM = ("Decides: every definition of the per-reaction rate list is an order-preserving map over the reactions and is what dydt and "
@@ -77,6 +79,18 @@ def r1_rate_list(ctx):
         rx, ra = target_names(v.generators[0].target)
         ok = U(v.elt) == "%s(variables, backend=backend, reaction=%s)" % (ra, rx)
     ctx.check(ok, a + ".reaction_rates", "zip(rxns,r_exprs)", "reaction_rates must evaluate ratex(variables, backend=backend, reaction=rxn) over zip(rsys.rxns, r_exprs)", node=ret)
+    # every substance of a reaction receives its contribution: the default key list is all four dicts
+    rt = ctx.func(CHEM, "Reaction.rate")
+    dk = None
+    for n in walk_shallow(rt):
+        if isinstance(n, ast.If) and U(n.test) == "substance_keys is None" and isinstance(n.body[0], ast.Assign):
+            dk = n.body[0].value
+    ctx.check(dk is not None and U(dk) == "self.keys()", CHEM + ":Reaction.rate", "default-keys=all-species",
+              "without explicit keys Reaction.rate must report every species of the reaction (self.keys(): active and inactive, both sides); found %s" % (U(dk) if dk is not None else None), node=rt)
+    rs = ctx.func(RSYS, "ReactionSystem.rates")
+    ok = any(isinstance(c, ast.Call) and isinstance(c.func, ast.Attribute) and c.func.attr == "rate" and [U(x) for x in c.args] == ["variables", "backend", "substance_keys"] and kwarg(c, "ratex") is not None
+             for c in calls_in(rs))
+    ctx.check(ok, RSYS + ":ReactionSystem.rates", "per-reaction-rate-call", "ReactionSystem.rates must call rxn.rate(variables, backend, substance_keys, ratex=ratex)", node=rs)
     # unique-key registration walks the same pairing
     ok = False
     for lp in for_loops(fn):
@@ -269,7 +283,7 @@ def r5_invariants(ctx):
 
 
 RULES = [
-    Rule("C04-R1", r1_rate_list, 7, "rate list aligned with reactions in every definition and consumer"),
+    Rule("C04-R1", r1_rate_list, 9, "rate list aligned with reactions in every definition and consumer"),
     Rule("C04-R2", r2_names_order, 13, "names/symbols/expressions in substance order; name/value pairings"),
     Rule("C04-R3", r3_sibling_closures, 6, "dydt and reaction_rates perform the same ordered writes to variables"),
     Rule("C04-R4", r4_param_units, 14, "parameter names/units arms; unique-key registration index alignment"),
@@ -291,6 +305,8 @@ MUTANTS = [
     Mutant("unique-index-off", [(ODE, "                        unique[uk] = arg\n                        _reg_unique_unit(uk, _get_arg_dim(expr, rxn), idx)", "                        unique[uk] = arg\n                        _reg_unique_unit(uk, _get_arg_dim(expr, rxn), 0)")], "C04-R4", "index"),
     Mutant("invariants-none", [(ODE, "linear_invariants=None if len(compo_vecs) == 0 else compo_vecs,", "linear_invariants=None,")], "C04-R5", "linear_invariants"),
 ]
+
+MUTANTS.append(Mutant("rate-default-keys-active-only", [(CHEM, "            substance_keys = self.keys()\n        if ratex is None:", "            substance_keys = set(chain(self.reac.keys(), self.prod.keys()))\n        if ratex is None:")], "C04-R1", "default-keys"))
 
 TWINS = [
     Twin("extra-debug-in-one-closure", [(ODE, "        variables.update(_passive_subst)\n        return [", "        variables.update(_passive_subst)\n        _n = len(variables)\n        return [")]),
